@@ -87,7 +87,14 @@ def scenarios_for(wd, quick, seed):
     for k in sorted(groups):
         g = groups[k]
         rnd.shuffle(g)
-        pick += g[:18]
+        # every shape once at one of the longest lengths (several blocks / many 8-value groups), the rest at random
+        long = {}
+        for s in g:
+            if s["len"] >= 255 and s["shape"] not in long:
+                long[s["shape"]] = s
+        chosen = list(long.values())
+        chosen += [s for s in g if s not in chosen][:18 - len(chosen)]
+        pick += chosen
     return sorted(pick, key=lambda s: s["id"]), len(univ)
 
 
